@@ -72,9 +72,7 @@ def SDESChunk.decP (b : Bytes) : SDESChunk × Status :=
       ({ source := src, items := its }, st)
     | _ => ({}, .panic)
 
-def SDESChunk.dec (b : Bytes) : Out SDESChunk :=
-  let (c, st) := SDESChunk.decP b
-  st.toOut c
+def SDESChunk.dec (b : Bytes) : Out SDESChunk := (SDESChunk.decP b).2.toOut (SDESChunk.decP b).1
 
 /-! ### SourceDescription -/
 
@@ -122,9 +120,7 @@ def SourceDescription.decP (b : Bytes) : SourceDescription × Status :=
       | st => ({ chunks := cs }, st)
   | o => ({}, o.status)
 
-def SourceDescription.dec (b : Bytes) : Out SourceDescription :=
-  let (s, st) := SourceDescription.decP b
-  st.toOut s
+def SourceDescription.dec (b : Bytes) : Out SourceDescription := (SourceDescription.decP b).2.toOut (SourceDescription.decP b).1
 
 def SourceDescription.dest (s : SourceDescription) : List Nat := s.chunks.map (·.source)
 
